@@ -258,7 +258,8 @@ class Gen:
             if p in PRIM_PARAM:
                 return ["prim", p, {PRIM_PARAM[p]: self.param_counter}]
             return ["prim", p, {}]
-        return ["ext", ch.rint(0, cfg["n_exts"] - 1, "xid"), {"a": self.param_counter}]
+        # (zero is a parameter value like any other: it must reach the package)
+        return ["ext", ch.rint(0, cfg["n_exts"] - 1, "xid"), {"a": 0 if ch.chance(1, 6) else self.param_counter}]
 
     def _mod_ok(self, m, for_pair):
         if not for_pair:
